@@ -266,7 +266,7 @@ def main(chk):
                 '(inner edges equal to event energies, weighted and unweighted, adjacent bins vs merged bin, EQP vs LIST on the same edges with all / not all energies inside '
                 'the range), PMAPCUBE/MDPMAPCUBE layer totals; per-bin counts compared exactly with the Lean numpy.histogram model. non-trivial = events on edges / outside the domain')
     chk.assumptions = TRUSTED
-    chk.lean(['IxpeVerif.Props.C08', 'IxpeVerif.Props.Audit.C08'])
+    chk.lean(['IxpeVerif.Props.C08', 'IxpeVerif.Props.C08Gen', 'IxpeVerif.Props.Audit.C08'], ['ana_init', 'ana_energy_mask', 'ana_sum_stokes_parameters', 'ana_w2', 'ana_table_row'])
     explore(chk)
     if chk.tier != 'quick':
         for b in range(2, 12):
